@@ -532,6 +532,9 @@ def tla(v):
         v = dict(_DEFAULTS[v["k"]], **v)
     if isinstance(v, dict) and "ck" in v and "cm" not in v:
         v = dict(v, cm=NONE)
+    if isinstance(v, dict) and "nt" in v:           # keyword argument: its value as pieces of atoms
+        pcs = [list(pc["atoms"]) for pc in v["pieces"]] if "pieces" in v else [[v["v"]]]
+        v = dict(n=v["n"], nt=v["nt"], pcs=pcs)
     if isinstance(v, dict) and "k" in v and v["k"] in TLA_KEYS:
         return "[" + ", ".join("%s |-> %s" % (f, tla(v[f])) for f in TLA_KEYS[v["k"]]) + "]"
     if isinstance(v, dict):
@@ -642,6 +645,13 @@ def Dm(m):
     return deco
 def dsj(kw):
     return "".join("[%s:]%s" % (n, v) for n, v in sorted(kw.items()))
+def vis(v):
+    import re
+    if v is None:
+        return '[none]'
+    if not isinstance(v, str):
+        return '[i%s]' % (v,)
+    return ''.join('[%s]' % {' ': 'SP', '-': 'DASH', ':': 'COLON'}.get(t, t) for t in re.findall(r'[a-z][0-9]+|.', v, re.S))
 %>
 '''
 
@@ -686,15 +696,34 @@ class Conc:
             return "mk(context, %d, None, %s, 'x')" % (s["m"], loop)
         return "mk(context, %d, caller, %s)" % (s["m"], loop)
 
+    ATOM_TEXT = {"SP": " ", "DASH": "-", "COLON": ":"}
+
+    def piece_py(self, pc):
+        """Python expression for one piece of a keyword value."""
+        if pc["kind"] == "expr":
+            a = pc["atoms"][0]
+            return "None" if a == "none" else a[1:] if a[0] == "i" else repr(a)
+        return repr("".join(self.ATOM_TEXT.get(a, a) for a in pc["atoms"]))
+
+    def pieces_attr(self, pieces):
+        """text of a tag attribute value made of these pieces."""
+        return "".join("${%s}" % self.piece_py(pc) if pc["kind"] == "expr" else "".join(self.ATOM_TEXT.get(a, a) for a in pc["atoms"])
+                       for pc in pieces)
+
+    def pieces_py(self, pieces):
+        if len(pieces) == 1 and pieces[0]["kind"] == "expr":
+            return self.piece_py(pieces[0])
+        return " + ".join(self.piece_py(pc) for pc in pieces) or "''"
+
     def args_text(self, args, amark, attr_style=False):
         items = [("", v) for v in args["pos"]]
-        kws = [(a["n"], a["v"]) for a in args["kw"]]
+        kws = [(a["n"], a) for a in args["kw"]]
         if not self.plain:
             self.r.shuffle(kws)
         items += kws
         out = []
         for i, (n, v) in enumerate(items):
-            e = self.pystr(v)
+            e = self.pieces_py(v["pieces"]) if isinstance(v, dict) and "pieces" in v else self.pystr(v["v"] if isinstance(v, dict) else v)
             if i == 0 and amark is not None:
                 e = "(%s, %s)[1]" % (self.mk(amark), e)
             out.append(("%s=%s" % (n, e)) if n else e)
@@ -714,7 +743,7 @@ class Conc:
         if k == "val":
             vk = s.get("vk", "plain")
             return {"plain": s["v"], "pos": s["v"], "opt": s["v"], "kwo": s["v"], "kwopt": s["v"],
-                    "star": "''.join(%s)" % s["v"], "dstar": "dsj(%s)" % s["v"]}[vk]
+                    "star": "''.join(%s)" % s["v"], "dstar": "dsj(%s)" % s["v"], "vis": "vis(%s)" % s["v"]}[vk]
         if k == "call":
             if s["via"] == "caller":
                 return "(caller.%s(%s) if caller and hasattr(caller, '%s') else '')" % (s["d"], self.args_text(s["args"], amark), s["d"])
@@ -791,13 +820,17 @@ class Conc:
         bargs = self.params_text(s["bparams"])
         inner = "".join(self.def_text(e["key"], e["n"]) for e in s["defs"]) + self.suite(s["body"])
         d = call["d"]
-        ns_ok = (not call["args"]["pos"]) and d in self.p["top"] and self.cur_tmpl == 0 and not self.plain
-        if ns_ok and self.r.random() < .5:
-            ns = self.r.choice(["self", "local"])
+        ns_ok = (not call["args"]["pos"]) and d in self.p["top"] and self.cur_tmpl == 0 and (not self.plain or s.get("ns"))
+        if ns_ok and (s.get("ns") or self.r.random() < .5):
+            ns = "self" if self.plain else self.r.choice(["self", "local"])
             kws = list(call["args"]["kw"])
-            self.r.shuffle(kws)
+            if not self.plain:
+                self.r.shuffle(kws)
             attrs = ""
             for i, a in enumerate(kws):
+                if "pieces" in a:
+                    attrs += ' %s="%s"' % (a["n"], self.pieces_attr(a["pieces"]))
+                    continue
                 attrs += ' %s="%s"' % (a["n"], self.attr_value(a["v"], amark if i == 0 else None))
             if bargs:
                 attrs += ' args="%s"' % bargs
